@@ -519,6 +519,9 @@ class DigestAuthMiddleware:
                 # Free the connection of the challenge response, or the retry
                 # needs a second one while this one is still acquired.
                 response.release()
+                # The cancelled writer may be in the middle of a read: the
+                # body is sent again once it is out of use.
+                await request._close()
                 # The retry carries the cookies the challenge has just set
                 # (the session is commonly opened together with the 401).
                 fresh = request.session.cookie_jar.filter_cookies(request.url)
